@@ -64,7 +64,10 @@ Definition ecode_eqb (a b : ecode) : bool :=
 Section Dispatch.
   Variables ty val bty blk : Type.
   Variable inst : ty -> val -> bool.      (* GuardedIsInstance(t, v, nil) *)
-  Variable binst : bty -> blk -> bool.    (* isAssignable(declared block type, block.PType()) = CallableType.IsInstance *)
+  (* isAssignable(declared block type, X) of CallableWith (callabletype.go:130,137): X = block.PType() for a call
+     with a block (`Some bl`; a literal Optional[..] at the top of the declared type is stripped first, :127),
+     X = Undef for a call without a block (`None`: "the declared block type accepts a missing block") *)
+  Variable binst : bty -> option blk -> bool.
 
   (* ---- the builder: one constructor per method of px.Dispatch ----------------------------------- *)
   Inductive bop :=
@@ -208,12 +211,17 @@ Section Dispatch.
         match s_block s with
         | None => Some false                                                (* :122 *)
         | Some (_, bt) =>                                                   (* :124 Optional stripped *)
-            if binst bt bl then tuple_inst3 s vs else Some false            (* :130 *)
+            if binst bt (Some bl) then tuple_inst3 s vs else Some false     (* :130 *)
         end
     | None =>
         match s_block s with
-        | Some (false, _) => Some false                                     (* :133 required block *)
-        | _ => tuple_inst3 s vs
+        | Some (opt, bt) =>
+            (* :137 blockType != nil && !isAssignable(blockType, Undef) => false.  For an optional block
+               createDispatch (function.go:199) made the block type Optional[bt], which accepts Undef
+               whatever bt is; otherwise the declared type itself decides (an alias of Optional[..],
+               Variant[Undef, ..], Any accept a missing block without being a literal Optional) *)
+            if opt || binst bt None then tuple_inst3 s vs else Some false
+        | None => tuple_inst3 s vs
         end
     end.
 
@@ -252,10 +260,10 @@ Section Dispatch.
     match r, b with
     | NoBlock, None => true
     | NoBlock, Some _ => false
-    | ReqBlock _, None => false
-    | ReqBlock bt, Some bl => binst bt bl
+    | ReqBlock bt, None => binst bt None       (* no block satisfies a declared block type that accepts undef *)
+    | ReqBlock bt, Some bl => binst bt (Some bl)
     | OptBlock _, None => true
-    | OptBlock bt, Some bl => binst bt bl
+    | OptBlock bt, Some bl => binst bt (Some bl)
     end.
 
   Definition matches_decl (d : list param) (r : blockreq) (vs : list val) (b : option blk) : bool :=
@@ -541,27 +549,33 @@ Fixpoint alias_lookup (env : list (str * pty)) (n : str) : option pty :=
   | (m, t) :: r => if str_eqb m n then Some t else alias_lookup r n
   end.
 
-Fixpoint subst (env : list (str * pty)) (t : pty) {struct t} : pty :=
+(* a type expression with every type reference replaced by what the loader in effect knows under that
+   name (c.ParseType, function.go:191); an unknown name stays a TypeReference *)
+Fixpoint subst_with (look : str -> option pty) (t : pty) {struct t} : pty :=
   match t with
-  | POptional t' => POptional (subst env t')
+  | POptional t' => POptional (subst_with look t')
   | PVariant ts => PVariant ((fix go (l : list pty) : list pty :=
-                                match l with [] => [] | t' :: r => subst env t' :: go r end) ts)
-  | PArray e lo hi => PArray (subst env e) lo hi
-  | PRef n => match alias_lookup env n with Some d => d | None => PRef n end
+                                match l with [] => [] | t' :: r => subst_with look t' :: go r end) ts)
+  | PArray e lo hi => PArray (subst_with look e) lo hi
+  | PRef n => match look n with Some d => d | None => PRef n end
   | _ => t
   end.
+
+Definition subst (env : list (str * pty)) : pty -> pty := subst_with (alias_lookup env).
 
 Definition resolve_aliases (decls : list (str * pty)) : list (str * pty) :=
   fold_left (fun env d => env ++ [(fst d, subst env (snd d))]) decls [].
 
-Definition subst_op {bty} (env : list (str * pty)) (o : bop pty bty) : bop pty bty :=
+Definition subst_op_with {bty} (look : str -> option pty) (o : bop pty bty) : bop pty bty :=
   match o with
-  | OParam t => OParam (subst env t)
-  | OOptParam t => OOptParam (subst env t)
-  | ORepParam t => ORepParam (subst env t)
-  | OReqRepParam t => OReqRepParam (subst env t)
+  | OParam t => OParam (subst_with look t)
+  | OOptParam t => OOptParam (subst_with look t)
+  | ORepParam t => ORepParam (subst_with look t)
+  | OReqRepParam t => OReqRepParam (subst_with look t)
   | o' => o'
   end.
+
+Definition subst_op {bty} (env : list (str * pty)) : bop pty bty -> bop pty bty := subst_op_with (alias_lookup env).
 
 (* Type.Name() of the fragment types *)
 Definition s_of (l : list N) : str := l.
@@ -641,10 +655,122 @@ Definition boolean_ctor : option (ctor pty pval N) :=
 Definition modelled_loader (n : str) : option (ctor pty pval N) :=
   if str_eqb n boolean_name then boolean_ctor else None.
 
-Definition no_block (bt b : N) : bool := false.
+Definition no_block (bt : N) (b : option N) : bool := false.
 
 (* px.New(c, T, args...) for a fragment type T with the modelled constructors (no Init types, no Creatable, no
    loadable type names in the fragment) *)
 Definition pnew_modelled (t : pty) (args : list pval) : outcome pval :=
   new_instance pinst no_block pname (fun _ => None) (fun _ => None) modelled_loader (fun _ => None) (fun _ => None)
                (RcvType t) args.
+
+(* ================================================================================================
+   functionBuilder.Resolve in a context (internal/function.go:148-180, internal/context.go:91-98,
+   loader/loader.go:198): the local types of a function live in a loader that is installed in the
+   context only while the function is resolved.  The part of pxContext that matters is its current
+   loader, modelled as the chain of local-type scopes above the static loader, innermost first.
+   ================================================================================================ *)
+Definition scope := list (str * pty).
+Definition lchain := list scope.
+Record pctx := mkCtx { c_loader : lchain }.
+
+(* parentedLoader.LoadEntry (loader.go:198): the parent is asked first, then the loader's own entries *)
+Fixpoint chain_lookup (ch : lchain) (n : str) : option pty :=
+  match ch with
+  | [] => None
+  | own :: parents => match chain_lookup parents n with
+                      | Some t => Some t
+                      | None => alias_lookup own n
+                      end
+  end.
+
+(* what ParseType / AddTypes accept of the fragment: NewIntegerType panics with a reported error when
+   min > max (integertype.go:150) - for Integer ranges and for the size ranges of String and Array *)
+Fixpoint pty_ok (t : pty) {struct t} : bool :=
+  match t with
+  | PInteger lo hi => lo <=? hi
+  | PString lo hi => lo <=? hi
+  | POptional t' => pty_ok t'
+  | PVariant ts => (fix all (l : list pty) : bool :=
+                      match l with [] => true | t' :: r => pty_ok t' && all r end) ts
+  | PArray e lo hi => (lo <=? hi) && pty_ok e
+  | _ => true
+  end.
+
+Definition op_ok {bty} (o : bop pty bty) : bool :=
+  match o with
+  | OParam t | OOptParam t | ORepParam t | OReqRepParam t => pty_ok t
+  | _ => true
+  end.
+
+(* pxContext.DoWithLoader (context.go:91): the loader is saved, replaced, and restored by a DEFERRED
+   function - the restore runs when doer returns and also when doer panics (the panic goes on to the
+   caller, who may recover it and keep using the context).  doer may itself change the context. *)
+Definition do_with_loader {A} (c : pctx) (l : lchain) (doer : pctx -> pctx * res A) : pctx * res A :=
+  let save := c_loader c in                                   (* :92 *)
+  match doer (mkCtx l) with                                   (* :96 c.loader = loader; :97 doer() *)
+  | (_, Ok a) => (mkCtx save, Ok a)                           (* :93-95 deferred restore, normal return *)
+  | (_, Panic p) => (mkCtx save, Panic p)                     (* :93-95 deferred restore while the panic unwinds *)
+  end.
+
+(* Resolve :155-166: the declared local types are added to the local loader one after the other; a
+   reference inside a definition is looked up through the chain (parent first); a definition that
+   does not resolve raises a reported error.  Returns the entries bound so far and whether all were. *)
+Fixpoint bind_locals (parents : lchain) (decls : list (str * pty)) (own : scope) : scope * bool :=
+  match decls with
+  | [] => (own, true)
+  | (n, t) :: r =>
+      let t' := subst_with (chain_lookup (own :: parents)) t in
+      if pty_ok t' then bind_locals parents r (own ++ [(n, t')]) else (own, false)
+  end.
+
+(* createDispatch for every dispatch (:170-172, :189-206) with the type references resolved through the
+   loader in effect; a type expression that does not resolve raises a reported error *)
+Definition resolve_dispatches (look : str -> option pty) (dss : list (list (bop pty N))) : res (list (dispatch pty N)) :=
+  let dss' := map (map (subst_op_with look)) dss in
+  if forallb (forallb op_ok) dss' then
+    match build_function dss' with
+    | inr ds => Ok ds
+    | inl _ => Panic POther
+    end
+  else Panic POther.
+
+(* a function as handed to px.BuildFunction: local types and dispatch creators *)
+Definition fndecl := (list (str * pty) * list (list (bop pty N)))%type.
+
+(* the builder panicked in dispatch i (BuildFunction) / Resolve raised (reported as dispatch 0, POther) /
+   the resolved dispatches *)
+Definition fnres := ((nat * pcode) + list (dispatch pty N))%type.
+
+Definition resolve_fn (c : pctx) (f : fndecl) : pctx * fnres :=
+  let '(decls, dss) := f in
+  match run_all dss 0 with                                    (* buildFunction :123: no context involved *)
+  | inl e => (c, inl e)
+  | inr _ =>
+      let '(c', r) :=
+        match decls with
+        | [] => (c, resolve_dispatches (chain_lookup (c_loader c)) dss)          (* :174-178 *)
+        | _ =>
+            let parents := c_loader c in
+            do_with_loader c ([] :: parents)                                      (* :152-153 *)
+              (fun ci =>
+                 let '(own, ok) := bind_locals parents decls [] in
+                 let ci' := mkCtx (own :: parents) in                             (* the local loader, filled *)
+                 if ok then (ci', resolve_dispatches (chain_lookup (own :: parents)) dss)
+                 else (ci', Panic POther))
+        end in
+      (c', match r with Ok ds => inr ds | Panic p => inl (0%nat, p) end)
+  end.
+
+(* a history: functions built and resolved one after the other in the same context; a Resolve that
+   raises is recovered by the caller and the context goes on being used *)
+Fixpoint run_history (c : pctx) (h : list fndecl) : pctx * list fnres :=
+  match h with
+  | [] => (c, [])
+  | f :: r =>
+      let '(c1, o) := resolve_fn c f in
+      let '(c2, os) := run_history c1 r in
+      (c2, o :: os)
+  end.
+
+(* a fresh context: no local types above the static loader *)
+Definition ctx0 : pctx := mkCtx [].
